@@ -25,6 +25,7 @@ const (
 	kSlicePrim
 	kSliceStruct
 	kArrayPrim
+	kArrayComp // [N]T with T a struct, a map of primitives or a list of primitives (described by elem)
 	kMapPrim
 	kMapPtrStruct
 	kMapStruct
@@ -57,14 +58,17 @@ type field struct {
 	hint       hint
 	hasInit    bool // primitive type with InitDefaults
 	elemPtr    bool // kSliceStruct: the elements are pointers to structs
+	elem       *field // kArrayComp: description of one element (kStruct, kMapPrim or kSlicePrim)
 	owner      *stype
 }
 
 type stype struct {
 	typ         reflect.Type
+	tagKey      string // the struct tag the description was read from
 	fields      []*field
 	hasInit     bool
 	hasValidate bool
+	selfUnpacks bool // the type has its own Unpack method: the library hands it the settings
 }
 
 type initer interface{ InitDefaults() }
@@ -156,6 +160,8 @@ func (f *field) shape() string {
 		return "slice-struct"
 	case kArrayPrim:
 		return "array-" + family(f.prim)
+	case kArrayComp:
+		return "array-of-" + f.elem.shape()
 	case kMapPrim:
 		return "map-" + family(f.prim)
 	case kMapPtrStruct:
@@ -193,9 +199,30 @@ func parseHint(tag, validate string) hint {
 	return h
 }
 
-// describe derives the description of a struct type.
-func describe(t reflect.Type) *stype {
-	st := &stype{typ: t, hasInit: implementsPtr(t, tIniter), hasValidate: implementsPtr(t, tValidater)}
+// altTag is the second struct tag name (StructTag option).
+const altTag = "alt"
+
+// elemField describes one element of a composite array.
+func elemField(et reflect.Type, tagKey string) *field {
+	e := &field{goName: "[]", typ: et}
+	switch {
+	case et.Kind() == reflect.Struct:
+		e.kind, e.sub = kStruct, describe(et, tagKey)
+	case et.Kind() == reflect.Map && isPrimType(et.Elem()):
+		e.kind, e.prim = kMapPrim, et.Elem()
+	case et.Kind() == reflect.Slice && isPrimType(et.Elem()):
+		e.kind, e.prim = kSlicePrim, et.Elem()
+	default:
+		return nil
+	}
+	return e
+}
+
+// describe derives the description of a struct type as it reads under the
+// struct tag tagKey ("config" is the default of the library).
+func describe(t reflect.Type, tagKey string) *stype {
+	st := &stype{typ: t, tagKey: tagKey, hasInit: implementsPtr(t, tIniter), hasValidate: implementsPtr(t, tValidater)}
+	_, st.selfUnpacks = reflect.PtrTo(t).MethodByName("Unpack")
 	for i := 0; i < t.NumField(); i++ {
 		sf := t.Field(i)
 		f := &field{idx: i, goName: sf.Name, typ: sf.Type, owner: st}
@@ -204,7 +231,7 @@ func describe(t reflect.Type) *stype {
 			f.unexported, f.kind, f.name = true, kOpaque, strings.ToLower(sf.Name)
 			continue
 		}
-		parts := strings.Split(sf.Tag.Get("config"), ",")
+		parts := strings.Split(sf.Tag.Get(tagKey), ",")
 		f.name = parts[0]
 		if f.name == "" {
 			f.name = strings.ToLower(sf.Name)
@@ -229,23 +256,25 @@ func describe(t reflect.Type) *stype {
 		case ft == tConfigPtr:
 			f.kind = kConfig
 		case ft.Kind() == reflect.Struct:
-			f.kind, f.sub = kStruct, describe(ft)
+			f.kind, f.sub = kStruct, describe(ft, tagKey)
 		case ft.Kind() == reflect.Ptr && ft.Elem().Kind() == reflect.Struct:
-			f.kind, f.sub = kPtrStruct, describe(ft.Elem())
+			f.kind, f.sub = kPtrStruct, describe(ft.Elem(), tagKey)
 		case ft.Kind() == reflect.Slice && isPrimType(ft.Elem()):
 			f.kind, f.prim = kSlicePrim, ft.Elem()
 		case ft.Kind() == reflect.Slice && ft.Elem().Kind() == reflect.Struct:
-			f.kind, f.sub = kSliceStruct, describe(ft.Elem())
+			f.kind, f.sub = kSliceStruct, describe(ft.Elem(), tagKey)
 		case ft.Kind() == reflect.Slice && ft.Elem().Kind() == reflect.Ptr && ft.Elem().Elem().Kind() == reflect.Struct:
-			f.kind, f.sub, f.elemPtr = kSliceStruct, describe(ft.Elem().Elem()), true
+			f.kind, f.sub, f.elemPtr = kSliceStruct, describe(ft.Elem().Elem(), tagKey), true
 		case ft.Kind() == reflect.Array && isPrimType(ft.Elem()):
 			f.kind, f.prim = kArrayPrim, ft.Elem()
+		case ft.Kind() == reflect.Array && elemField(ft.Elem(), tagKey) != nil:
+			f.kind, f.elem = kArrayComp, elemField(ft.Elem(), tagKey)
 		case ft.Kind() == reflect.Map && isPrimType(ft.Elem()):
 			f.kind, f.prim = kMapPrim, ft.Elem()
 		case ft.Kind() == reflect.Map && ft.Elem().Kind() == reflect.Struct:
-			f.kind, f.sub = kMapStruct, describe(ft.Elem())
+			f.kind, f.sub = kMapStruct, describe(ft.Elem(), tagKey)
 		case ft.Kind() == reflect.Map && ft.Elem().Kind() == reflect.Ptr && ft.Elem().Elem().Kind() == reflect.Struct:
-			f.kind, f.sub = kMapPtrStruct, describe(ft.Elem().Elem())
+			f.kind, f.sub = kMapPtrStruct, describe(ft.Elem().Elem(), tagKey)
 		default:
 			panic(fmt.Sprintf("c13: unsupported field type %v", ft))
 		}
@@ -293,17 +322,30 @@ var vrules = map[string][]vrule{
 type tgen struct {
 	r *rand.Rand
 	n int // running number: Go field names and configuration names are unique per generated type
+	// twoTags: the fields carry a second tag set under altTag (other names,
+	// other ignore flags, other merge policies) for the StructTag option
+	twoTags bool
 }
 
-func (g *tgen) tag(num int, opts []string, extra string) reflect.StructTag {
+// tag builds the struct tag of field num: the config tag set from opts, and --
+// for types with two tag sets, 4 fields in 5 -- the alt tag set from altOpts.
+func (g *tgen) tag(num int, opts, altOpts []string, extra string) reflect.StructTag {
 	name := ""
 	if g.r.Intn(10) < 7 {
 		name = "k" + strconv.Itoa(num)
 	}
-	if name == "" && len(opts) == 0 && g.r.Intn(2) == 0 {
-		return reflect.StructTag(strings.TrimSpace(extra))
+	t := ""
+	if name != "" || len(opts) > 0 || g.r.Intn(2) > 0 {
+		t = `config:"` + strings.Join(append([]string{name}, opts...), ",") + `"`
 	}
-	return reflect.StructTag(strings.TrimSpace(`config:"` + strings.Join(append([]string{name}, opts...), ",") + `" ` + extra))
+	if g.twoTags && g.r.Intn(5) > 0 {
+		name = ""
+		if g.r.Intn(10) < 7 {
+			name = "q" + strconv.Itoa(num)
+		}
+		t += ` ` + altTag + `:"` + strings.Join(append([]string{name}, altOpts...), ",") + `"`
+	}
+	return reflect.StructTag(strings.TrimSpace(t + " " + extra))
 }
 
 var listPols = []string{"append", "prepend", "replace", "merge"}
@@ -317,7 +359,7 @@ func (g *tgen) primStruct() reflect.Type {
 	var fs []reflect.StructField
 	for i, n := 0, 1+g.r.Intn(3); i < n; i++ {
 		g.n++
-		fs = append(fs, reflect.StructField{Name: "F" + strconv.Itoa(g.n), Type: primTypes[g.r.Intn(len(primTypes))], Tag: g.tag(g.n, nil, "")})
+		fs = append(fs, reflect.StructField{Name: "F" + strconv.Itoa(g.n), Type: primTypes[g.r.Intn(len(primTypes))], Tag: g.tag(g.n, nil, nil, "")})
 	}
 	return reflect.StructOf(fs)
 }
@@ -333,8 +375,10 @@ func (g *tgen) structType(depth, nf int, validators bool) reflect.Type {
 		g.n++
 		num := g.n
 		sf := reflect.StructField{Name: "F" + strconv.Itoa(num)}
-		var opts []string
 		extra := ""
+		inline := false
+		var pool []string // the policy tag options this kind of field may carry ...
+		polNum, polDen := 0, 1 // ... and how often
 		x := r.Intn(105)
 		if depth == 0 && x >= 44 && x < 62 {
 			x = r.Intn(44)
@@ -358,35 +402,40 @@ func (g *tgen) structType(depth, nf int, validators bool) reflect.Type {
 			sf.Type = reflect.PtrTo(primTypes[r.Intn(len(primTypes))])
 		case x < 51: // struct by value
 			sf.Type = nested(validators)
-			if r.Intn(5) < 2 {
-				opts = append(opts, structPols[r.Intn(len(structPols))])
-			}
+			pool, polNum, polDen = structPols, 2, 5
 		case x < 57: // pointer to struct
 			sf.Type = reflect.PtrTo(nested(false))
-			if r.Intn(5) < 2 {
-				opts = append(opts, structPols[r.Intn(len(structPols))])
-			}
+			pool, polNum, polDen = structPols, 2, 5
 		case x < 62: // inline struct by value (generated only: names stay unique)
 			sf.Type = g.structType(depth-1, 1+r.Intn(3), validators)
-			opts = append(opts, []string{"inline", "inline", "squash"}[r.Intn(3)])
-			if r.Intn(5) < 2 {
-				opts = append(opts, structPols[r.Intn(len(structPols))])
-			}
+			inline = true
+			pool, polNum, polDen = structPols, 2, 5
 		case x < 76:
 			sf.Type = reflect.SliceOf(elemTypes[r.Intn(len(elemTypes))])
-			if r.Intn(2) == 0 {
-				opts = append(opts, listPols[r.Intn(len(listPols))])
-			}
+			pool, polNum, polDen = listPols, 1, 2
 		case x < 81:
 			sf.Type = reflect.SliceOf(g.primStruct())
 			if r.Intn(3) == 0 {
 				sf.Type = reflect.SliceOf(reflect.PtrTo(g.primStruct()))
 			}
-			if r.Intn(2) == 0 {
-				opts = append(opts, listPols[r.Intn(len(listPols))])
-			}
+			pool, polNum, polDen = listPols, 1, 2
 		case x < 87:
 			sf.Type = reflect.ArrayOf(1+r.Intn(4), elemTypes[r.Intn(len(elemTypes))])
+			if r.Intn(5) < 2 { // composite elements
+				var et reflect.Type
+				switch r.Intn(5) {
+				case 0:
+					et = tLibPlain // unexported, ignored and embedded fields inside the elements
+				case 1:
+					et = reflect.MapOf(tString, elemTypes[r.Intn(len(elemTypes))])
+				case 2:
+					et = reflect.SliceOf(elemTypes[r.Intn(len(elemTypes))])
+					pool, polNum, polDen = listPols, 1, 3
+				default:
+					et = g.primStruct()
+				}
+				sf.Type = reflect.ArrayOf(1+r.Intn(3), et)
+			}
 		case x < 94:
 			sf.Type = reflect.MapOf(tString, elemTypes[r.Intn(len(elemTypes))])
 		case x < 97:
@@ -395,23 +444,44 @@ func (g *tgen) structType(depth, nf int, validators bool) reflect.Type {
 			sf.Type = reflect.MapOf(tString, g.primStruct())
 		default: // *ucfg.Config capturing a sub-configuration
 			sf.Type = tConfigPtr
-			if r.Intn(2) == 0 {
-				opts = append(opts, listPols[r.Intn(len(listPols))])
+			pool, polNum, polDen = listPols, 1, 2
+		}
+		// one set of tag options per tag name: the same inline-ness, policy and
+		// ignore flag drawn independently
+		tagOpts := func() []string {
+			var opts []string
+			if inline {
+				opts = append(opts, []string{"inline", "inline", "squash"}[r.Intn(3)])
 			}
+			if pool != nil && r.Intn(polDen) < polNum {
+				opts = append(opts, pool[r.Intn(len(pool))])
+			}
+			if len(opts) == 0 && extra == "" && r.Intn(12) == 0 {
+				opts = append(opts, "ignore") // never together with inline, a policy or a validator
+			}
+			return opts
 		}
-		if len(opts) == 0 && extra == "" && r.Intn(12) == 0 {
-			opts = append(opts, "ignore") // never together with inline, a policy or a validator
+		opts := tagOpts()
+		var altOpts []string
+		if g.twoTags {
+			altOpts = tagOpts()
 		}
-		sf.Tag = g.tag(num, opts, extra)
+		sf.Tag = g.tag(num, opts, altOpts, extra)
 		fs = append(fs, sf)
 	}
 	return reflect.StructOf(fs)
 }
 
-func genTop(r *rand.Rand) *stype {
-	if r.Intn(8) == 0 {
-		return describe(tLibTop)
+// genTop draws the type of a case: 1 in 8 the hand-written LibTop, 1 in 8 one
+// of the hand-written self-unpacking types, else a generated type (half of
+// them with two tag sets).
+func genTop(r *rand.Rand) reflect.Type {
+	switch r.Intn(8) {
+	case 0:
+		return tLibTop
+	case 1:
+		return selfStructs[r.Intn(len(selfStructs))]
 	}
-	g := &tgen{r: r}
-	return describe(g.structType(2, 3+r.Intn(6), true))
+	g := &tgen{r: r, twoTags: r.Intn(2) == 0}
+	return g.structType(2, 3+r.Intn(6), true)
 }
